@@ -139,7 +139,486 @@ class C01:
         # and kill-idle after every step are covered by 'kill' ends of the base histories
 
 
-PROFILES = {"C01": C01}
+# ====================================================================== shared scripts
+
+def layout_script(h, rng, store_one, n_events, checkpoint, restarts=True, compaction=True, min_cp=3):
+    """Store n_events (callback store_one()) while walking through storage layouts; call checkpoint(tag)
+    after every layout-changing step. The current lifetime must exist and types must be defined."""
+    remaining = n_events
+    script = []
+    while remaining > 0:
+        n = min(remaining, rng.randrange(1, 6))
+        script.append(("stores", n))
+        remaining -= n
+        x = rng.random()
+        if x < 0.30:
+            script.append(("flush",))
+        elif x < 0.45 and compaction:
+            script.append(("compact",))
+        elif x < 0.55 and restarts:
+            script.append(("restart", rng.choice(["shutdown", "kill"])))
+    tail = [("flush",)]
+    if compaction:
+        tail += [("compact",), ("compact",)]
+    if restarts:
+        tail += [("restart", "shutdown"), ("restart", "kill")]
+    rng.shuffle(tail)
+    script += [("cp",)] + tail[:rng.randrange(2, len(tail) + 1)]
+    for op in script:
+        if op[0] == "stores":
+            for _ in range(op[1]):
+                store_one()
+            if rng.random() < 0.4:
+                checkpoint("mem")
+        elif op[0] == "flush":
+            h.flush()
+            checkpoint("flushed")
+        elif op[0] == "compact":
+            h.compact()
+            checkpoint("compacted")
+        elif op[0] == "restart":
+            h.end(op[1])
+            h.life(end="shutdown")
+            checkpoint("restart-" + op[1])
+        elif op[0] == "cp":
+            checkpoint("cp")
+    checkpoint("final")
+
+
+class Base:
+    design_ref = "DESIGN.md §5"
+    level = "exploration"
+    level_note = ("Sampling over seeded histories, not enumeration. Trusted: the reference model (core typed fragment), "
+                  "libc interposition, single runtime thread with gates for the interleavings that matter.")
+
+    @staticmethod
+    def relevant(v):
+        return True
+
+
+# ====================================================================== C03
+
+FLUSH_GATES = ["flush.start", "flusher.before_index", "flush.written", "flush.verified", "flush.published",
+               "flush.released", "flush.pruned"]
+
+
+class C03(Base):
+    id = "C03"
+    technique = "deterministic simulation: hold rules park the flush task / read flows at gates; frozen-state reads vs model"
+    level_text = ("Seeded histories with tiny memtables so STOREs rotate constantly; the flush task of a chosen rotation is parked "
+                  "at each flush gate in turn (optionally with further rotations queued behind it, and with a read flow parked "
+                  "across publication/release), and selection, COUNT and REPLAY are issued against that frozen intermediate "
+                  "state and again after release; every applied event must appear exactly once and COUNT must equal the number "
+                  "of distinct rows of the selection issued in the same state.")
+    clauses = {"lost", "duplicate-row", "foreign-row", "wrong-value", "count-vs-selection", "replay-lost",
+               "replay-duplicate", "replay-foreign", "frames", "read-error", "panic", "id-change"}
+    budgets = {"quick": {"histories": 160}, "thorough": {"histories": 6000}}
+
+    @staticmethod
+    def gen(seed, tier):
+        n = C03.budgets[tier]["histories"]
+        for i in range(n):
+            rng = rnd("C03", seed, i)
+            readgate = rng.random() < 0.35
+            cfg = {"shard_count": 1 if readgate else rng.choice([1, 1, 2]), "fill_factor": rng.choice([1, 2, 3]),
+                   "event_per_zone": rng.choice([1, 1, 2]), "segments_per_merge": 2, "max_inflight_passives": rng.choice([2, 8]),
+                   "wal": {"flush_each_write": True, "buffered": False}}
+            cap = cfg["fill_factor"] * cfg["event_per_zone"]
+            h = H(seed, "C03", cfg, uid_salt=f"C03-{seed}-{i}")
+            h.life(end="shutdown")
+            types = ["t0"] if rng.random() < 0.7 else ["t0", "t1"]
+            for t in types:
+                h.define(t, {"k": "int", "s": "string"})
+            ctxs = [f"c{j}" for j in range(rng.choice([1, 2, 3]))]
+            gate = rng.choice(FLUSH_GATES)
+            nth = rng.choice([1, 1, 2, 3])
+            h.hold("hf", gate, key="s0/*" if gate != "flusher.before_index" else "", nth=nth)
+
+            def st():
+                t = rng.choice(types)
+                k = h.new_k()
+                h.store(t, rng.choice(ctxs), payload_for(h.types[t], k, rng), k=k)
+            # enough stores to reach the nth rotation on shard 0 (all contexts may hash elsewhere when 2 shards)
+            for _ in range(cap * nth * cfg["shard_count"] + rng.randrange(0, cap + 1)):
+                st()
+            nreads = [0]
+
+            def cp(tag):
+                before = sum(1 for s in h.cur["steps"] if (s.get("meta") or {}).get("kind") in ("select", "count", "replay", "query"))
+                h.read_all(tag=tag)
+            cp("parked")
+            # more stores while the flush is parked: overlapping rotations queue behind it
+            for _ in range(rng.randrange(0, 2 * cap + 1)):
+                st()
+            cp("parked+more")
+            if readgate:
+                # park a read's memtable flow, let the flush run through publication and release, then let the read finish
+                rgate = rng.choice(["read.mem.start", "read.seg.start"])
+                t = rng.choice(types)
+                kind = rng.choice(["select", "count", "replay"])
+                if kind == "count":
+                    h.select(t, tag="racing-ref")
+                hr = h.hold_next(rgate)
+                if kind == "select":
+                    rs = h.select(t, tag="racing", **{"async": True})
+                elif kind == "count":
+                    rs = h.count(t, tag="racing", **{"async": True})
+                else:
+                    rs = h.replay(rng.choice(ctxs), tag="racing", **{"async": True})
+                h.release("hf")
+                h.release(hr)
+                h.await_(rs)
+            else:
+                h.release("hf")
+            cp("released")
+            yield h.done()
+
+
+
+# ====================================================================== C04
+
+class C04(Base):
+    id = "C04"
+    technique = "deterministic simulation: layout histories + forced delivery order of memtable/segment flows; order oracle"
+    level_text = ("Seeded histories in which one focus context's appends are interleaved with other contexts/types and with FLUSH, "
+                  "compaction rounds and clean/kill restarts so that it spans compacted, L0, passive and active tiers; every REPLAY "
+                  "variant (all types / one type / SINCE / RETURN) is issued at every checkpoint, and for a subset of replays the "
+                  "memtable flow or the segment flow is parked at its start gate so that the other delivers first. The returned "
+                  "sequence of events must equal the model's apply order (order compared, not only membership).")
+    clauses = {"replay-order", "replay-lost", "replay-duplicate", "replay-foreign", "wrong-value", "frames", "read-error", "panic"}
+    budgets = {"quick": {"histories": 120}, "thorough": {"histories": 5000}}
+
+    @staticmethod
+    def gen(seed, tier):
+        for i in range(C04.budgets[tier]["histories"]):
+            rng = rnd("C04", seed, i)
+            cfg = {"shard_count": rng.choice([1, 1, 2, 3]), "fill_factor": rng.choice([1, 2, 3]), "event_per_zone": rng.choice([1, 2, 3]),
+                   "segments_per_merge": rng.choice([2, 3]), "wal": {"flush_each_write": True, "buffered": False}}
+            h = H(seed, "C04", cfg, uid_salt=f"C04-{seed}-{i}")
+            h.life(end="shutdown")
+            types = ["t0"] if rng.random() < 0.5 else ["t0", "t1"]
+            for t in types:
+                h.define(t, {"k": "int", "s": "string"})
+            focus = "cf"
+            others = [f"o{j}" for j in range(rng.choice([0, 1, 3]))]
+            h.ctxs.append(focus)
+
+            def st():
+                t = rng.choice(types)
+                k = h.new_k()
+                c = focus if (not others or rng.random() < 0.6) else rng.choice(others)
+                h.store(t, c, {"k": k, "s": rng.choice(["x", "y", "zed"])}, k=k)
+
+            def cp(tag):
+                h.step({"op": "barrier", "meta": {"kind": "checkpoint", "tag": tag}})
+                variants = [None] + types
+                for t in variants:
+                    mode = rng.random()
+                    if mode < 0.4 and cfg["shard_count"] == 1:
+                        # force which flow delivers first: park one flow of this replay, then release
+                        gate = rng.choice(["read.mem.start", "read.seg.start"])
+                        hid = h.hold_next(gate)
+                        rs = h.replay(focus, t, tag=tag + ":" + gate, **{"async": True})
+                        h.release(hid)
+                        h.await_(rs)
+                    else:
+                        h.replay(focus, t, tag=tag)
+                if others and rng.random() < 0.5:
+                    h.replay(rng.choice(others), tag=tag)
+            layout_script(h, rng, st, rng.randrange(4, 16), cp)
+            yield h.done()
+
+
+# ====================================================================== C05
+
+class C05(Base):
+    id = "C05"
+    level = "fault_enumeration"
+    technique = "deterministic simulation: compaction on the simulated clock, answer-invariance oracle, enumerated crash points and errno faults"
+    level_text = ("Seeded multi-type histories produce segment populations in which types share segments only partially; the real "
+                  "background compactor is run by advancing the simulated clock, round after round. The full answer set (selection "
+                  "and COUNT per type, REPLAY per context) is taken before, between and after rounds and after clean and kill "
+                  "restarts and must not change (invariance oracle) nor disagree with the model. The compaction lifetime is re-run "
+                  "with a crash at enumerated I/O events (output files, index tmp/fsync/rename, reclaim) and with errno faults on "
+                  "compaction output writes; after restart the previous answers must still hold.")
+    clauses = {"lost", "duplicate-row", "foreign-row", "wrong-value", "count-vs-selection", "replay-lost", "replay-duplicate",
+               "replay-foreign", "layout-variance", "frames", "read-error", "panic", "id-change"}
+    budgets = {"quick": {"histories": 12, "crash_limit": 40}, "thorough": {"histories": 150, "crash_limit": 100000}}
+
+    @staticmethod
+    def gen(seed, tier):
+        for i in range(C05.budgets[tier]["histories"]):
+            rng = rnd("C05", seed, i)
+            cfg = {"shard_count": rng.choice([1, 1, 2]), "fill_factor": rng.choice([1, 2]), "event_per_zone": rng.choice([1, 2, 3]),
+                   "segments_per_merge": rng.choice([2, 2, 3]), "wal": {"flush_each_write": True, "buffered": False}}
+            h = H(seed, "C05", cfg, uid_salt=f"C05-{seed}-{i}")
+            h.life(end="shutdown")
+            ntypes = rng.choice([1, 2, 3])
+            types = [f"t{j}" for j in range(ntypes)]
+            for t in types:
+                h.define(t, {"k": "int", "s": "string"})
+            ctxs = [f"c{j}" for j in range(rng.choice([1, 2, 4]))]
+            nseg = rng.randrange(3, 9)
+            for s_ in range(nseg):
+                # each segment gets a random subset of types so that batches drain inputs only partially
+                present = [t for t in types if rng.random() < 0.7] or [rng.choice(types)]
+                for _ in range(rng.randrange(1, 4)):
+                    t = rng.choice(present)
+                    k = h.new_k()
+                    h.store(t, rng.choice(ctxs), {"k": k, "s": rng.choice(["x", "y"])}, k=k)
+                h.flush()
+            h.read_all(tag="before")
+            h.end("shutdown")
+            # the compaction lifetime (enumerated)
+            h.life(end=rng.choice(["shutdown", "kill"]))
+            rounds = rng.randrange(1, 4)
+            for r_ in range(rounds):
+                h.compact()
+                h.read_all(tag=f"round{r_}")
+                if rng.random() < 0.3:
+                    k = h.new_k()
+                    t = rng.choice(types)
+                    h.store(t, rng.choice(ctxs), {"k": k, "s": "z"}, k=k)
+                    h.flush()
+            comp_life = len(h.plan["lifetimes"]) - 1
+            h.life(end="shutdown")
+            h.read_all(tag="after-restart")
+            h.compact()
+            h.read_all(tag="after-restart-compact")
+            h.life(end="shutdown")
+            h.read_all(tag="final")
+            plan = h.done()
+            plan["enumerate_life"] = comp_life
+            yield plan
+
+    @staticmethod
+    def variants(plan, result, seed, tier):
+        li = plan["enumerate_life"]
+        info = result["io"][li] if li < len(result["io"]) else None
+        if not info or "events" not in info:
+            return
+        rng = rnd("C05v", seed, result["id"])
+        evs = [e for e in info["events"] if e[0] > info.get("startup_io", 0)]
+        for k in engine.choose_crash_points(evs, 0, rng, C05.budgets[tier]["crash_limit"]):
+            yield engine.crash_variant(plan, li, k)
+        # errno faults on compaction output: one variant per (op, path class) seen after start-up
+        classes = sorted({(op, pc) for _, op, pc in evs if op in ("open", "write", "rename", "mkdir", "fsync") and (pc.startswith("seg") or pc in ("segment-dir",))})
+        rng.shuffle(classes)
+        for op, pc in classes[: (4 if tier == "quick" else 40)]:
+            p = copy.deepcopy(plan)
+            p.pop("id", None)
+            glob = {"segidx-tmp": "*segments.idx.tmp", "segidx": "*segments.idx", "segment-dir": "cols/*/*"}.get(pc, "cols/*/*/*." + pc[4:])
+            p["lifetimes"][li]["io_faults"] = [{"id": f"e-{op}-{pc}", "op": op, "path": glob,
+                                                 "nth": rng.choice([1, 1, 2, 3]), "errno": rng.choice(["EIO", "ENOSPC", "EACCES"])}]
+            p["lifetimes"][li]["fault_after_io"] = info.get("startup_io", 0)
+            p["opts"] = {"faulty": True}
+            yield p
+
+
+# ====================================================================== C12
+
+HOSTILE_CTX = ["a", "A", "a ", " a", "ctx-1", "ctx_1", "ctx:1", "ctx/1", "user:ext:42", "ünïcode", "日本語", "x" * 200,
+               "CTX-1", "ctx-1 ", "-", "a.b", "a,b", "'q'", "tab\tx", "c0", "c 0", "C0", "ﬀ", "ａ"]
+
+
+class C12(Base):
+    id = "C12"
+    technique = "deterministic simulation: histories with restarts over hostile context ids; shard-tag stability + scoped/unscoped read oracle"
+    level_text = ("Seeded histories over context ids from a hostile pool (very long, non-ASCII, differing only in case or whitespace) "
+                  "and shard counts 1-5, with clean and kill restarts between STOREs to the same context. The shard tag in the event "
+                  "ids of one context must be constant across all lifetimes; FOR <ctx> must return exactly that context's events; an "
+                  "unscoped query must return the union over all shards (also when some shards hold only passive or no data).")
+    clauses = {"shard-moved", "lost", "duplicate-row", "foreign-row", "query-missing", "query-extra", "wrong-value", "frames",
+               "read-error", "panic", "wal-shard"}
+    budgets = {"quick": {"histories": 100}, "thorough": {"histories": 4000}}
+
+    @staticmethod
+    def gen(seed, tier):
+        for i in range(C12.budgets[tier]["histories"]):
+            rng = rnd("C12", seed, i)
+            cfg = {"shard_count": rng.choice([1, 2, 3, 4, 5]), "fill_factor": rng.choice([1, 2, 3]), "event_per_zone": rng.choice([1, 2]),
+                   "segments_per_merge": 2, "wal": {"flush_each_write": True, "buffered": False}}
+            h = H(seed, "C12", cfg, uid_salt=f"C12-{seed}-{i}")
+            h.life(end="shutdown")
+            h.define("t0", {"k": "int", "s": "string"})
+            ctxs = rng.sample(HOSTILE_CTX, rng.randrange(2, 7))
+
+            def st():
+                k = h.new_k()
+                h.store("t0", rng.choice(ctxs), {"k": k, "s": "v"}, k=k)
+
+            def cp(tag):
+                h.step({"op": "barrier", "meta": {"kind": "checkpoint", "tag": tag}})
+                h.select("t0", tag=tag)
+                for c in ctxs:
+                    if rng.random() < 0.6:
+                        h.query({"type": "t0", "ctx": c}, tag=tag)
+            layout_script(h, rng, st, rng.randrange(5, 18), cp, compaction=rng.random() < 0.3)
+            yield h.done()
+
+
+# ====================================================================== C18
+
+class C18(Base):
+    id = "C18"
+    technique = "deterministic simulation: scripted wall clock (frozen, repeated, backward steps, also across kill-restart) + id uniqueness/order oracle"
+    level_text = ("Seeded histories under scripted wall-clock behaviour: monotone, frozen (bursts within one millisecond, including "
+                  "more than 4096 events on one shard so the sequence wraps), repeated values, backward steps inside a lifetime and "
+                  "across a kill-restart (the id generator's state is not persisted), long gaps; with WAL recovery, flush and "
+                  "compaction in between. Over the whole store: all ids distinct, per shard ids increase in apply order, ids after "
+                  "recovery equal ids before, and the number of rows returned equals the number of events applied.")
+    clauses = {"id-reuse", "id-change", "id-order", "lost", "duplicate-row", "foreign-row", "frames", "read-error", "panic"}
+    budgets = {"quick": {"histories": 60, "bursts": 1}, "thorough": {"histories": 1500, "bursts": 12}}
+
+    @staticmethod
+    def gen(seed, tier):
+        nb = C18.budgets[tier]["bursts"]
+        for i in range(C18.budgets[tier]["histories"]):
+            rng = rnd("C18", seed, i)
+            burst = i < nb
+            cfg = {"shard_count": 1 if burst else rng.choice([1, 2, 3]), "fill_factor": 5000 if burst else rng.choice([1, 2, 4]),
+                   "event_per_zone": 1 if burst else rng.choice([1, 2]), "segments_per_merge": 2,
+                   "wal": {"flush_each_write": True, "buffered": burst, "buffer_size": 65536}}
+            h = H(seed, "C18", cfg, uid_salt=f"C18-{seed}-{i}")
+            mode = "frozen" if burst else rng.choice(["monotone", "frozen", "backward", "restart-back", "restart-same", "mixed"])
+            tick = {"monotone": rng.choice([1, 5, 1000]), "frozen": 0}.get(mode, rng.choice([0, 1, 3]))
+            h.life(end="shutdown", tick_ms=tick, spin_ms=1)
+            h.define("t0", {"k": "int"})
+            ctxs = ["c0"] if burst else [f"c{j}" for j in range(rng.choice([1, 2, 4]))]
+
+            def st(**extra):
+                k = h.new_k()
+                return h.store("t0", rng.choice(ctxs), {"k": k}, k=k, **extra)
+            if burst:
+                for _ in range(4100 + rng.randrange(0, 60)):
+                    st()
+                h.select("t0", tag="burst")
+                h.end("kill")
+                h.life(end="shutdown", tick_ms=0, wall_ms=BASE_WALL_MS, spin_ms=1)
+                h.select("t0", tag="burst-recovered")
+                for _ in range(5):
+                    st()
+                h.select("t0", tag="burst-more")
+                yield h.done()
+                continue
+            nlife = rng.choice([1, 2, 3])
+            for li in range(nlife):
+                for _ in range(rng.randrange(3, 14)):
+                    x = rng.random()
+                    if mode in ("backward", "mixed") and x < 0.2:
+                        st(wall_advance_ms=-rng.choice([1, 2, 50, 5000]))
+                    elif x < 0.1:
+                        st(wall_advance_ms=rng.choice([1, 1000, 86_400_000]))
+                    elif x < 0.2:
+                        h.flush()
+                    elif x < 0.25:
+                        h.compact()
+                    else:
+                        st()
+                h.select("t0", tag=f"life{li}")
+                if li < nlife - 1:
+                    h.end(rng.choice(["kill", "shutdown"]))
+                    prev_start = h.cur["wall_clock_ms"]
+                    if mode == "restart-back":
+                        nxt = prev_start - rng.choice([0, 1, 10, 60_000])
+                    elif mode == "restart-same":
+                        nxt = prev_start
+                    elif mode == "mixed":
+                        nxt = prev_start + rng.choice([-5, 0, 1, 3, 1_000_000])
+                    else:
+                        nxt = prev_start + 1_000_000
+                    h.life(end="shutdown", tick_ms=tick, wall_ms=nxt, spin_ms=1)
+                    h.select("t0", tag=f"recovered{li}")
+            yield h.done()
+
+
+
+# ====================================================================== C11
+
+def with_snapshots(plan, every=1):
+    """Insert a filesystem snapshot at the start of every lifetime and after every `every`-th command."""
+    p = copy.deepcopy(plan)
+    for life in p["lifetimes"]:
+        steps = []
+        steps.append({"op": "fs_snapshot", "meta": {"kind": "fs"}})
+        n = 0
+        for st in life["steps"]:
+            steps.append(st)
+            if st.get("op", "cmd") in ("cmd", "advance"):
+                kind = (st.get("meta") or {}).get("kind")
+                if kind in ("store", "flush", "advance", "define"):
+                    n += 1
+                    if n % every == 0:
+                        steps.append({"op": "fs_snapshot", "meta": {"kind": "fs"}})
+        life["steps"] = steps
+        life["log_reads"] = True
+    return p
+
+
+class C11(Base):
+    id = "C11"
+    level = "fault_enumeration"
+    technique = "deterministic simulation: the I/O seam as monitor (every filesystem mutation is an event) + snapshots, enumerated crash points"
+    level_text = ("Histories of STORE/FLUSH/compaction/restart (as C01/C05, including empty flushes, restarts after compaction "
+                  "emptied L0 and crashes that leave unpublished directories). The libc seam logs every mutation and every "
+                  "read-only open below the data root; the oracle decodes each segments.idx that is renamed into place and "
+                  "checks on every event that no file of a named segment is written, truncated, renamed or removed, that the "
+                  "index only changes by tmp+rename, that directories are created under fresh ids, that no read touches a "
+                  "left-over directory no index ever named, and - from content-hash snapshots after every step and after every "
+                  "restart, at enumerated crash points - that every named segment has exactly the files and bytes written before "
+                  "it was published.")
+    clauses = {"mutated-published", "removed-while-named", "index-in-place", "index-undecodable", "index-names-missing-dir",
+               "dir-reuse", "read-unpublished", "named-but-absent", "incomplete-segment", "panic"}
+    budgets = {"quick": {"histories": 8, "crash_limit": 50}, "thorough": {"histories": 120, "crash_limit": 100000}}
+    opts = {"segments": True}
+
+    @staticmethod
+    def nontrivial(plan, res):
+        return res["stats"].get("fs_snapshots", 0) > 2 and res["stats"].get("store_acked", 0) > 0
+
+    @staticmethod
+    def gen(seed, tier):
+        n = C11.budgets[tier]["histories"]
+        for i in range(n):
+            rng = rnd("C11", seed, i)
+            cfg = swarm_config(rng, durable=True)
+            h = H(seed, "C11", cfg, uid_salt=f"C11-{seed}-{i}")
+            types = [f"t{j}" for j in range(rng.choice([1, 2]))]
+            ctxs = [f"c{j}" for j in range(rng.choice([1, 2, 4]))]
+            nlife = rng.choice([2, 3])
+            for li in range(nlife):
+                h.life(end=rng.choice(["shutdown", "kill"]))
+                if li == 0:
+                    for t in types:
+                        h.define(t, {"k": "int", "s": "string"})
+                gen_ops(h, rng, rng.randrange(4, 12), types, ctxs, p_flush=0.25, p_compact=0.15, p_read=0.1)
+                if rng.random() < 0.3:
+                    h.flush()
+                    h.flush()      # empty flush
+            last_work = len(h.plan["lifetimes"]) - 1
+            h.life(end="shutdown")
+            h.read_all(tag="verify", replay=False)
+            gen_ops(h, rng, rng.randrange(2, 6), types, ctxs, p_flush=0.3, p_compact=0.1, p_read=0.0)
+            h.flush()
+            h.read_all(tag="verify2", replay=False)
+            plan = with_snapshots(h.done())
+            plan["enumerate_life"] = last_work
+            yield plan
+
+    @staticmethod
+    def variants(plan, result, seed, tier):
+        li = plan["enumerate_life"]
+        info = result["io"][li] if li < len(result["io"]) else None
+        if not info or "events" not in info:
+            return
+        rng = rnd("C11v", seed, result["id"])
+        for k in engine.choose_crash_points(info["events"], 0, rng, C11.budgets[tier]["crash_limit"]):
+            yield engine.crash_variant(plan, li, k)
+
+
+# ====================================================================== registry
+
+PROFILES = {"C01": C01, "C03": C03, "C04": C04, "C05": C05, "C11": C11, "C12": C12, "C18": C18}
 
 NOT_APPLICABLE = {
     "C08": "pure function of (zone value multiset, probe): no schedule, clock, fault or history in it; its end-to-end consequence is covered by C02's layout-invariance oracle",
@@ -147,6 +626,8 @@ NOT_APPLICABLE = {
     "C17": "totality of parsing/dispatch is a pure function of the input string; no interleaving, crash or clock involved",
     "C20": "pure function of (result batch, renderer); no nondeterminism or fault surface",
 }
-for _p in ("C02","C03","C04","C05","C06","C07","C09","C10","C11","C12","C13","C14","C15","C18","C19"):
+for _p in ("C02","C06","C07","C09","C10","C13","C14","C15","C19"):
     NOT_APPLICABLE.setdefault(_p, "check under construction in this session (claimed by DESIGN.md; profile not yet registered)")
+
+
 
